@@ -44,6 +44,18 @@ CLAIMED["C01"] = dict(
     technique="Kani function contract (proof_for_contract) + harness contracts over symbolic byte strings; concrete trees with symbolic request paths",
 )
 
+CLAIMED["C07"] = dict(
+    category="model_checking",
+    text="Bounded. Harness contracts on the macro-generated trait methods <int as FromParam>::from_param for all ten integer types: for EVERY ASCII string of each length up to "
+         "digits(MAX)+2 the result is Ok(v) only if the whole string is an in-range integer literal of that type with value v (independent reference grammar), every "
+         "'-'?digit+ in-range literal is accepted, no overflow or panic (quick: 8/16-bit types, thorough: all). String/Cow/&str params pass the decoded segment through "
+         "(&str refuses decoded input); Option<FR> is None only when the inner extractor reports absence and propagates inner errors.",
+    design_ref="DESIGN.md §4 C07",
+    note="Bounded by string length. Not under contract: the macro-generated IntoHandler impls (handler runs only if every extraction is Ok), the FromBody media-type gate, "
+         "JSON (serde_json); decoders are C08-C10. A genuine defect found by these obligations was repaired (fix: a0d3612).",
+    technique="Kani harness contracts over all strings of bounded length against a reference grammar",
+)
+
 NOT_APPLICABLE = {
 }
 
